@@ -10,6 +10,7 @@
 #if SIM_PART == 0
     #define SIM_MAIN_TU 1
 #endif
+#include "../sim/composite.hpp"
 #include "../sim/driver.hpp"
 #include "../sim/worker.hpp"
 
@@ -27,6 +28,8 @@ template <typename Vec, typename T, size_t N, VK Which>
 struct VecDriver {
     static constexpr bool isStatic  = Which == VK::static_vec;
     static constexpr bool tracked   = is_tracked_v<T>;
+    // elements that contain instrumented objects without being one: the registry watches their parts
+    static constexpr bool watched   = tracked || std::is_same_v<T, sim::Nest>;
     static constexpr bool copyable  = etl::is_copy_constructible_v<T>;
     static constexpr bool moveOnly  = !copyable;
     static constexpr bool checks    = SIM_CHECKS != 0;
@@ -118,7 +121,7 @@ struct VecDriver {
         }
         auto* lo = slot_obj(s);
         guarded(true, [&] { obj[s]->~Vec(); });
-        if constexpr (tracked) {
+        if constexpr (watched) {
             if (reg().live_in(lo, lo + sizeof(Vec)) != 0) {
                 ctx.violation("C03", "lifetime:alive-after-owner-destroyed", "elements alive inside a destroyed owner");
                 reg().forget_range(lo, lo + sizeof(Vec));
@@ -257,7 +260,7 @@ struct VecDriver {
             ctx.stepClass     = 2;
             g_crash.stepClass = 2;
         }
-        if constexpr (tracked) {
+        if constexpr (watched) {
             reg().mark_harness_held();
         }
         auto out = guarded(true, static_cast<F&&>(f));
@@ -273,7 +276,7 @@ struct VecDriver {
             return false;
         }
         if (out == Outcome::trapped) {
-            if constexpr (tracked) {
+            if constexpr (watched) {
                 reg().forgive_outside_arena();
             }
             if (expectTrap) {
@@ -532,7 +535,7 @@ struct VecDriver {
         if (!ctx.stop) {
             check_relations();
         }
-        if constexpr (tracked) {
+        if constexpr (watched) {
             if (reg().live_outside_arena() != 0) {
                 ctx.violation("C03", "lifetime:temporary-leaked", "a temporary element is still alive after the call returned");
                 reg().harnessHeld.clear();
@@ -1313,7 +1316,7 @@ struct VecDriver {
             // longjmp (no destructor can run), the slot is rebuilt with a default-constructed object afterwards
             ctx.stepClass     = bad ? 2 : 0;
             g_crash.stepClass = ctx.stepClass;
-            if constexpr (tracked) {
+            if constexpr (watched) {
                 reg().mark_harness_held();
             }
             auto out = guarded(true, [&] {
@@ -1343,7 +1346,7 @@ struct VecDriver {
             ctx.stepClass     = 0;
             g_crash.stepClass = 0;
             if (out == Outcome::trapped) {
-                if constexpr (tracked) {
+                if constexpr (watched) {
                     reg().forgive_outside_arena();
                     reg().forget_range(slot_obj(a), slot_obj(a) + sizeof(Vec));
                 }
@@ -1711,7 +1714,7 @@ struct StackDriver : DriverBase<StackDriver<T, N>> {
         }
         auto* lo = slot_obj(s);
         guarded(true, [&] { obj[s]->~S(); });
-        if constexpr (tracked) {
+        if constexpr (tracked || std::is_same_v<T, sim::Nest>) {
             if (reg().live_in(lo, lo + sizeof(S)) != 0) {
                 ctx.violation("C03", "lifetime:alive-after-owner-destroyed", "elements alive inside a destroyed stack");
                 reg().forget_range(lo, lo + sizeof(S));
@@ -1854,7 +1857,7 @@ struct StackDriver : DriverBase<StackDriver<T, N>> {
                 }
             }
         }
-        if constexpr (tracked) {
+        if constexpr (tracked || std::is_same_v<T, sim::Nest>) {
             Base::temporaries_must_be_gone();
         }
         if (g_counting) {
@@ -2069,7 +2072,7 @@ void add_stack(char const* tname)
     s.name   = std::string("stack<") + tname + ",static_vector<" + tname + "," + std::to_string(N) + ">>";
     s.ops    = D::ops();
     s.props  = {"C01", "C02", "C05"};
-    if (is_tracked_v<T>) {
+    if (is_tracked_v<T> || std::is_same_v<T, sim::Nest>) {
         s.props.emplace_back("C03");
     }
     s.run = [](Plan const& p, Ctx& c) {
@@ -2089,7 +2092,7 @@ void add_static(char const* tname)
     s.name   = std::string("static_vector<") + tname + "," + std::to_string(N) + ">";
     s.ops    = D::ops();
     s.props  = {"C01", "C02", "C03", "C05"};
-    if (!is_tracked_v<T>) {
+    if (!is_tracked_v<T> && !std::is_same_v<T, sim::Nest>) {
         s.props = {"C01", "C02", "C05"};
     }
     s.maxSteps = N >= 254 ? 60 : 40;
@@ -2110,7 +2113,7 @@ void add_inplace(char const* tname)
     s.name   = std::string("inplace_vector<") + tname + "," + std::to_string(N) + ">";
     s.ops    = D::ops();
     s.props  = {"C01", "C02", "C03", "C05"};
-    if (!is_tracked_v<T>) {
+    if (!is_tracked_v<T> && !std::is_same_v<T, sim::Nest>) {
         s.props = {"C01", "C02", "C05"};
     }
     s.run = [](Plan const& p, Ctx& c) {
@@ -2164,6 +2167,32 @@ void register_vec_0()
     add_static<sim::Coarse, 4>("Coarse");
     add_inplace<sim::Coarse, 4>("Coarse");
     add_stack<sim::Coarse, 3>("Coarse");
+    // elements that own library objects themselves (a static_vector, an optional, a string): the outer algorithms drive
+    // the inner special members; the registry and the teardown check watch the instrumented parts
+#if defined(__clang__)
+    // clang 14 cannot compile a static_vector whose element type contains a static_vector; the scenarios are registered
+    // as empty placeholders so that both compilers map the same seed to the same scenario
+    for (char const* name : {"static_vector<Nest,3>", "static_vector<Nest,8>", "inplace_vector<Nest,3>", "stack<Nest,static_vector<Nest,2>>"}) {
+        Scenario s;
+        s.family          = "vec";
+        s.name            = name;
+        s.ops             = {{"noop", 1}};
+        s.props           = {"C01", "C02", "C03", "C05"};
+        s.compilerNeutral = false;
+        s.run             = [](Plan const&, Ctx&) { };
+        registry().push_back(std::move(s));
+    }
+#else
+    add_static<sim::Nest, 3>("Nest");
+    add_static<sim::Nest, 8>("Nest");
+    add_inplace<sim::Nest, 3>("Nest");
+    add_stack<sim::Nest, 2>("Nest");
+    for (auto& s : registry()) {
+        if (s.name.find("Nest") != std::string::npos) {
+            s.compilerNeutral = false;
+        }
+    }
+#endif
 }
 
 auto main(int argc, char** argv) -> int
